@@ -1498,7 +1498,8 @@ dt_date(dt_dtyp_t outtyp)
 		}
 		case DT_YD:
 			res.yd.y = tm.tm_year;
-			res.yd.d = tm.tm_yday;
+			/* tm_yday counts from 0 */
+			res.yd.d = tm.tm_yday + 1;
 			break;
 		case DT_YWD:
 			/* use ordinary conversion to ywd */
